@@ -4,6 +4,10 @@ CONSTANTS
   Caps <- CapsAll
   GMasks <- FewGroups
   SMasks <- NoSites
+  JMasks <- NoSites
+  TMasks <- NoSites
+  AMasks <- NoSites
+  FlagSets <- NoFlags
   Statics <- OnlyTrue
   CatMasks <- FullCat
   QPos <- Q0
